@@ -95,12 +95,16 @@ def model_skeletons() -> dict[str, dict]:
         {
             "Leaf": leaf,
             "OuterA": obj({"req-leaf": ref("Leaf"), "optLeaf": ref("Leaf"), "inline-obj": obj({"in-x": INT, "inY": STR}, ["in-x"])}, ["req-leaf"], additionalProperties=False),
+            # an inline object that carries a title (class named after the title when use_path_prefixes_for_title_model_names is off)
+            "OuterT": obj({"titled-obj": obj({"t-x": INT}, title="Inline Thing"), "plainObj": obj({"p-y": STR})}, additionalProperties=False),
             "OuterB": obj({"leaf-list": arr(ref("Leaf")), "optLeafList": arr(ref("Leaf"))}, ["leaf-list"], additionalProperties=False),
             "ListsA": obj({"ints": arr(INT), "opt-ints": arr(INT), "strs": arr(STR)}, ["ints"], additionalProperties=False),
             "ListsB": obj({"dates": arr(DATE), "optDates": arr(DATE)}, ["dates"], additionalProperties=False),
             "ListsC": obj({"matrix": arr(arr(INT)), "optUuids": arr(UUID)}, additionalProperties=False),
+            "TuplesA": obj({"pair": {"type": "array", "prefixItems": [INT, BOOL]}, "single": {"type": "array", "prefixItems": [DATE]}}, additionalProperties=False),
+            "TuplesB": obj({"head-rest": {"type": "array", "prefixItems": [ref("Leaf")], "items": INT}}, ["head-rest"], additionalProperties=False),
             "Tree": obj({"node-val": INT, "kids": arr(ref("Tree")), "parentRef": ref("Tree")}, ["node-val"], additionalProperties=False),
-            "Registry": {"type": "object", "additionalProperties": obj({"r-leaf": ref("Leaf"), "rOuter": ref("OuterA"), "r.tree": ref("Tree"), "rPing": ref("Ping")})},
+            "Registry": {"type": "object", "additionalProperties": obj({"r-leaf": ref("Leaf"), "rOuter": ref("OuterB"), "r.tree": ref("Tree"), "rPing": ref("Ping")})},
             "Ping": obj({"to-pong": ref("Pong"), "n": INT}),
             "Pong": obj({"toPing": ref("Ping"), "s": STR}),
         }
@@ -157,6 +161,7 @@ def model_skeletons() -> dict[str, dict]:
     S["defaults"] = doc(
         {
             "DefaultsA": obj({"def-int": {"type": "integer", "default": 3}, "defStr": {"type": "string", "default": "hello"}, "def.bool": {"type": "boolean", "default": True}, "defNum": {"type": "number", "default": 1.5}}),
+            "DefaultsC": obj({"def-union": {"oneOf": [INT, STR], "default": "x"}, "defUnionInt": {"anyOf": [INT, BOOL], "default": 3}, "def-nullable": {"type": ["string", "null"], "default": "n"}, "defInlineEnumInt": {"type": "integer", "enum": [0, 1], "default": 0}}),
             "DefaultsB": obj(
                 {"def-date": {"type": "string", "format": "date", "default": "2020-01-02"}, "defEnum": {"type": "string", "enum": ["a", "b"], "default": "b"}, "req-with-default": {"type": "integer", "default": 9}},
                 ["req-with-default"],
@@ -318,6 +323,7 @@ def endpoint_skeletons() -> dict[str, dict]:
             "/b/zip": {"post": {"operationId": "postZip", "requestBody": {"content": {"application/zip": {"schema": {"type": "string", "format": "binary"}}}}, "responses": {"204": {"description": "none"}}}},
             "/b/mixed": {"post": {"operationId": "postMixed", "requestBody": {"content": {"multipart/mixed": {"schema": ref("Form")}}}, "responses": {"204": {"description": "none"}}}},
             "/b/text-json": {"post": {"operationId": "postTextJson", "requestBody": {"content": {"text/json": {"schema": ref("Leaf")}, "application/json": {"schema": ref("Form")}}}, "responses": {"204": {"description": "none"}}}},
+            "/b/no-schema": {"post": {"operationId": "postNoSchema", "requestBody": {"content": {"application/json": {}, "application/x-www-form-urlencoded": {"schema": ref("Form")}, "not a media type": {"schema": STR}}}, "responses": {"204": {"description": "none"}}}},
             "/b/form": {"post": {"operationId": "postForm", "requestBody": {"content": {"application/x-www-form-urlencoded": {"schema": ref("Form")}}}, "responses": {"204": {"description": "none"}}}},
             "/b/multi": {"post": {"operationId": "postMulti", "requestBody": {"content": {"multipart/form-data": {"schema": ref("Upload")}}}, "responses": {"204": {"description": "none"}}}},
             "/b/bin": {"post": {"operationId": "postBin", "requestBody": {"content": {"application/octet-stream": {"schema": {"type": "string", "format": "binary"}}}}, "responses": {"204": {"description": "none"}}}},
